@@ -137,12 +137,31 @@ func runC09(r *Run, p *Prog) {
 			}
 			return false
 		}
-		censusRange = func(v ssa.Value) (int, int, bool) {
+		var rng func(v ssa.Value, depth int) (int, int, bool)
+		rng = func(v ssa.Value, depth int) (int, int, bool) {
 			if c, ok := v.(*ssa.Call); ok && c.Call.StaticCallee() == a.next {
 				return -1, 255, true
 			}
+			// a variable that holds read results (`c := next(); for pred(c) { c = next() }`)
+			if ph, ok := v.(*ssa.Phi); ok && depth < 3 && len(ph.Edges) > 0 {
+				lo, hi := 1<<30, -(1 << 30)
+				for _, e := range ph.Edges {
+					if e == ssa.Value(ph) {
+						continue
+					}
+					l, h, ok := rng(e, depth+1)
+					if !ok {
+						return 0, 0, false
+					}
+					lo, hi = min(lo, l), max(hi, h)
+				}
+				if lo <= hi {
+					return lo, hi, true
+				}
+			}
 			return 0, 0, false
 		}
+		censusRange = func(v ssa.Value) (int, int, bool) { return rng(v, 0) }
 		defer func() { censusSkip, censusRange = nil, nil }()
 		n := panicCensus(r, p, NewTerms(p), "O4", fns)
 		// regexp.MustCompile on constants: compile them here
